@@ -129,7 +129,12 @@ func makeAccumulatorFunc(expr parser.ItemType) (newAccumulatorFunc, error) {
 
 			return &accumulator{
 				AddFunc: func(v float64) {
-					hasValue = true
+					// The first value is taken as it is: 0 + (-0) is 0, not -0.
+					if !hasValue {
+						hasValue = true
+						value = v
+						return
+					}
 					value += v
 				},
 				ValueFunc: func() float64 { return value },
@@ -207,8 +212,13 @@ func makeAccumulatorFunc(expr parser.ItemType) (newAccumulatorFunc, error) {
 
 			return &accumulator{
 				AddFunc: func(v float64) {
-					hasValue = true
 					count += 1
+					// The first value is taken as it is: 0 + (-0) is 0, not -0.
+					if !hasValue {
+						hasValue = true
+						sum = v
+						return
+					}
 					sum += v
 				},
 				ValueFunc: func() float64 { return sum / count },
